@@ -21,7 +21,8 @@ def ChR (t : Tabs) (st st' : SM.St) (r : RefId) : Prop :=
   ∃ q x, t.refOf r = some (q, x) ∧ t.rid q x = r ∧ st'.mem .refs q x ≠ st.mem .refs q x
 
 theorem cellInfo_of_cellOf (t : Tabs) (st : SM.St) (c : CellId) (q : Path) (x : String)
-    (h : t.cellOf c = some (q, x)) : cellInfo t st c = (st.mem .cells q x).map (fun m => (q, x, m)) := by
+    (h : t.cellOf c = some (q, x)) :
+    cellInfo t st c = if t.cid q x == c then (st.mem .cells q x).map (fun m => (q, x, m)) else none := by
   unfold cellInfo; rw [h]
 
 theorem cellInfo_of_cellOf_none (t : Tabs) (st : SM.St) (c : CellId) (h : t.cellOf c = none) :
@@ -47,11 +48,13 @@ theorem redef_envOf (P : Params) (t : Tabs) (st st' : SM.St) :
       rw [cellInfo_of_cellOf t st' c q x hd, cellInfo_of_cellOf t st c q x hd, hm]
       refine ⟨rfl, ?_⟩
       intro q' x' m h
-      simp only [Option.map_eq_some_iff, Prod.mk.injEq] at h
-      obtain ⟨m', hm', rfl, rfl, rfl⟩ := h
-      apply Classical.byContradiction
-      intro hne
-      exact hc ⟨_, _, hd, Or.inr ⟨by rw [hm']; rfl, hne⟩⟩
+      split at h
+      · simp only [Option.map_eq_some_iff, Prod.mk.injEq] at h
+        obtain ⟨m', hm', rfl, rfl, rfl⟩ := h
+        apply Classical.byContradiction
+        intro hne
+        exact hc ⟨_, _, hd, Or.inr ⟨by rw [hm']; rfl, hne⟩⟩
+      · cases h
   refine ⟨?_, ?_, ?_, ?_, ?_⟩
   · intro n hn
     obtain ⟨h1, h2⟩ := key n.1 hn
@@ -96,18 +99,26 @@ theorem alive_iff (P : Params) (t : Tabs) (st : SM.St) (c : CellId) :
   | some e =>
     obtain ⟨q, x⟩ := e
     rw [cellInfo_of_cellOf t st c q x hd]
-    cases hm : st.mem .cells q x with
-    | none => simp [hm]
-    | some m =>
-      simp only [Option.map_some, beq_iff_eq, Option.some.injEq, Prod.mk.injEq]
-      constructor
-      · intro h; exact ⟨q, x, m, ⟨rfl, rfl⟩, hm, h⟩
-      · rintro ⟨q', x', m', ⟨rfl, rfl⟩, _, h⟩; exact h
+    by_cases hcid : t.cid q x = c
+    · have hb : (t.cid q x == c) = true := by simpa using hcid
+      simp only [hb, if_true]
+      cases hm : st.mem .cells q x with
+      | none => simp [hm]
+      | some m =>
+        simp only [Option.map_some, Option.isSome_some, Option.some.injEq, Prod.mk.injEq, true_iff]
+        exact ⟨q, x, m, ⟨rfl, rfl⟩, hm, hcid⟩
+    · have hb : (t.cid q x == c) = false := by simpa using hcid
+      simp only [hb, Bool.false_eq_true, if_false, Option.isSome_none, false_iff]
+      rintro ⟨q', x', m', h1, _, h3⟩
+      simp only [Option.some.injEq, Prod.mk.injEq] at h1
+      obtain ⟨rfl, rfl⟩ := h1
+      exact hcid h3
 
 theorem cached_of_info (P : Params) (t : Tabs) (st : SM.St) (c : CellId) (q : Path) (x : String) (m : Member)
-    (hd : t.cellOf c = some (q, x)) (hm : st.mem .cells q x = some m) :
+    (hd : t.cellOf c = some (q, x)) (hm : st.mem .cells q x = some m) (hcid : t.cid q x = c) :
     (envOf P t st).cached c = P.flagOf m.payload := by
-  simp only [envOf, cellInfo_of_cellOf t st c q x hd, hm, Option.map_some]
+  have hb : (t.cid q x == c) = true := by simpa using hcid
+  simp only [envOf, cellInfo_of_cellOf t st c q x hd, hm, Option.map_some, hb, if_true]
 
 theorem mem_cellsOf (t : Tabs) (st : SM.St) (q : Path) (x : String) (h : (st.mem .cells q x).isSome = true) :
     t.cid q x ∈ cellsOf t st q := by
@@ -271,7 +282,7 @@ theorem struct_ci (P : Params) {t : Tabs} {st st' : SM.St} {s : Exec.St} {cl : L
       rw [hcid] at this
       exact this _ hgn rfl
     refine ⟨?_, ?_⟩
-    · rw [cached_of_info P t st' n.1 q x m hd (by rw [hsame, hm]), ← cached_of_info P t st n.1 q x m hd hm]
+    · rw [cached_of_info P t st' n.1 q x m hd (by rw [hsame, hm]) hcid, ← cached_of_info P t st n.1 q x m hd hm hcid]
       exact hca
     · exact (alive_iff P t st' n.1).mpr ⟨q, x, m, hd, by rw [hsame, hm], hcid⟩
   · -- the cells that can read a changed reference by name are clean
